@@ -1,5 +1,6 @@
 """Resolved program: classes, MRO, functions, imports, local types, callee resolution, call graph, effects."""
 import ast
+import re
 import builtins
 
 from .loader import AnalysisError
@@ -473,6 +474,12 @@ class Program:
             if key in CALLABLE_PARAMS:
                 return ('callable_param', CALLABLE_PARAMS[key])
             args = f.node.args
+            for a in args.args + args.kwonlyargs + args.posonlyargs:
+                # a parameter declared as a factory of a class of the package: Callable[..., K], Type[K], Optional[..] of those
+                if a.arg == name and a.annotation is not None:
+                    m_ = re.search(r'(?:Callable\[\s*(?:\.\.\.|\[[^\]]*\])\s*,\s*|Type\[)\s*([A-Za-z_]\w*)\s*\]', ast.unparse(a.annotation))
+                    if m_ and self.has_cls(m_.group(1)):
+                        return ('callable_param', m_.group(1))
             if any(a.arg == name for a in args.args + args.kwonlyargs + args.posonlyargs):
                 return ('param', name)
             f = f.outer
